@@ -481,6 +481,10 @@ func (a *Analysis) NewlineSiblings() *report.RuleResult {
 			}
 			if sp != tab {
 				bad = append(bad, fmt.Sprintf("blank is %s but tab is %s", sp, tab))
+			} else if !sameKeys(a.Targets(n, 32), a.Targets(n, 9)) {
+				// the same class is not enough: after `<?php` both a blank and a tab are given back, but only one of
+				// them may complete the long open tag (seed C03-10)
+				bad = append(bad, fmt.Sprintf("a blank and a tab take different transitions (%s / %s): the token that ends here depends on which of the two follows", keysOf(a.Targets(n, 32)), keysOf(a.Targets(n, 9))))
 			}
 			if sp == "consumed" && lf == "held" {
 				if why, ok := blankOnly(mn, w); ok {
@@ -557,6 +561,15 @@ func (a *Analysis) CaseFold(machines ...string) *report.RuleResult {
 
 var caseSensitiveStates = map[string]string{
 	`php:"0"`: "the radix prefixes 0x / 0b are matched in lower case only; they are neither keywords nor casts (PHP itself also accepts 0X / 0B: a lexical difference outside this property)",
+}
+
+func keysOf(a map[string][]string) string {
+	var ks []string
+	for k := range a {
+		ks = append(ks, k)
+	}
+	sort.Strings(ks)
+	return strings.Join(ks, ",")
 }
 
 func sameKeys(a, b map[string][]string) bool {
